@@ -3,8 +3,9 @@
 # each applied to a scratch worktree of /repo HEAD (never to /repo itself), and write one line per change to seeded/SWEEP.txt.
 tier=${1:-quick}; nw=${2:-4}
 export GOFLAGS=-mod=mod GOPROXY=off GOSUMDB=off GOTOOLCHAIN=local
+VH="$(cd "$(dirname "$0")/.." && pwd)"   # the checkout these tools belong to: /verif, or a snapshot of it made by vp run
 mkdir -p /tmp/mut
-rm -f /tmp/mut/sweep_*.out; ls -d /verif/seeded/*/ > /tmp/mut/sweep_list.txt
+rm -f /tmp/mut/sweep_*.out; ls -d $VH/seeded/*/ > /tmp/mut/sweep_list.txt
 worker() {
   k=$1; wt=/tmp/mut/sw$k; i=0
   for d in $(cat /tmp/mut/sweep_list.txt); do
@@ -16,7 +17,7 @@ worker() {
     if ! git -C $wt apply $patch 2>/dev/null; then
       echo "$name $id NOT-APPLICABLE (does not apply to the current tree: superseded by a repair)"; continue
     fi
-    res=$(cd /verif && VERIF_REPO=$wt ./check $id $tier 2>&1)
+    res=$(cd $VH && VERIF_REPO=$wt ./check $id $tier 2>&1)
     rc=$?
     sig=$(echo "$res" | grep -o "^  C[0-9][0-9]/[^:]*" | head -1 | tr -d ' ')
     case "$rc" in 1) r="KILLED $sig";; 0) r=SURVIVED;; *) r="rc=$rc $(echo "$res" | tail -1 | cut -c1-100)";; esac
@@ -25,7 +26,7 @@ worker() {
     [ -n "$(jq -r '.obsolete // ""' $d/meta.json)" ] && r="$r [marked obsolete: $(jq -r .obsolete $d/meta.json | cut -c1-90)]"
     echo "$name $id $r"
   done
-  rm -f /verif/.work/bin/harness-_tmp_mut_sw$k.test /verif/.work/alt-_tmp_mut_sw$k.* /verif/.work/evidence-alt-*
+  rm -f $VH/.work/bin/harness-_tmp_mut_sw$k.test $VH/.work/alt-_tmp_mut_sw$k.* $VH/.work/evidence-alt-*
 }
 # worktrees are created one after the other (concurrent "git worktree" calls race on /repo/.git/worktrees)
 for k in $(seq 0 $((nw-1))); do
@@ -35,5 +36,5 @@ done
 for k in $(seq 0 $((nw-1))); do worker $k > /tmp/mut/sweep_$k.out 2>&1 & done
 wait
 for k in $(seq 0 $((nw-1))); do git -C /repo worktree remove --force /tmp/mut/sw$k; done
-cat /tmp/mut/sweep_*.out | sort > /verif/seeded/SWEEP.txt
-grep -c KILLED /verif/seeded/SWEEP.txt
+cat /tmp/mut/sweep_*.out | sort > $VH/seeded/SWEEP.txt
+grep -c KILLED $VH/seeded/SWEEP.txt
